@@ -489,10 +489,15 @@ theorem push_interp (ext : Ext) : ∀ (x : SVal) (b b' : B) (dt : DataType) (n :
     rw [push, ctx_ok] at h
     obtain ⟨hi, hu⟩ := pushScalar_interp ext _ _ b' dt n md lv hwf hsh h hd hsm
     rw [interpDT, hu]; exact hi
-  | .unitStruct x, b, b', dt, n, md, lv, _, hwf, _, hsh, h, hd, hsm => by
-    rw [push, ctx_ok] at h
-    obtain ⟨hi, hu⟩ := pushScalar_interp ext _ _ b' dt n md lv hwf hsh h hd hsm
-    rw [interpDT, hu]; exact hi
+  | .unitStruct x, b, b', dt, n, md, lv, _, hwf, hs, hsh, h, hd, _ => by
+    rw [interpDT]
+    cases b with
+    | unknownVariant p => simp [push, ctx_ok, fail] at h
+    | _ =>
+      simp only [push] at h
+      have := row_unique hd (pushNone_appends _ b' hwf hs h).2
+      subst this
+      exact pushNone_interp _ b' dt n md hsh h
 
 theorem pushElems_interp (ext : Ext) : ∀ (xs : SVals), noRaws xs = true →
     ElemsSpec ext xs (fun large el offs => pushElems ext large el offs xs)
